@@ -323,7 +323,7 @@ func main() {
 		return
 	}
 	dir, seed, thorough := cases.Args()
-	s := cases.New("C16", dir, "LW.Corr.C16", "every case is one HTTP request through the real handler with its own configuration table; distinct by (table, body)")
+	s := cases.New("C16", dir, "LW.Corr.C16", "every case is one HTTP request through the real handler with the configuration table as it is at that moment (history steps share a process / handler with earlier requests; the model is a pure function of (table, body), so dependence on the past is a mismatch); wrong-MIC cases include MICs correct under every other key the server knows or derives; distinct by (table, body)")
 	s.ShardSize = 24
 	s.Watchdog(3 * time.Second)
 	g := &G{s: s, r: cq.NewRNG(seed)}
